@@ -21,6 +21,8 @@ import (
 	"sort"
 	"strings"
 	"sync"
+	"testing"
+	"testing/cryptotest"
 	"testing/synctest"
 	"time"
 
@@ -592,6 +594,12 @@ func nsSortedAddrs(m map[netip.Addr][]nsHostSnapshot) []netip.Addr {
 // nsBubble runs prop inside a synctest bubble tied to the rapid case; the simulator is always
 // shut down so that the bubble can end, and a failure carries the simulator trace.
 func nsBubble(rt *rapid.T, prop func(rt *rapid.T, s *nsSim)) {
+	// deterministic cryptographic randomness (keys, ephemeral keys, tunnel indexes) per case, so a
+	// case is as close to a pure function of its rapid draws as the Go runtime allows (map iteration
+	// order and goroutine wake-up order inside one virtual instant remain outside our control).
+	if nsT != nil {
+		cryptotest.SetGlobalRandom(nsT, rapid.Uint64().Draw(rt, "cryptoSeed"))
+	}
 	rapid.SyncTest(rt, func(rt *rapid.T) {
 		s := nsNewSim()
 		defer s.shutdown()
@@ -600,3 +608,8 @@ func nsBubble(rt *rapid.T, prop func(rt *rapid.T, s *nsSim)) {
 }
 
 var _ = io.EOF
+
+// nsT is the *testing.T of the running test (set by nsSetT); needed for cryptotest.SetGlobalRandom.
+var nsT *testing.T
+
+func nsSetT(t *testing.T) { nsT = t }
